@@ -596,6 +596,8 @@ func genC10(r *rng, tier string, emit func(string)) {
 	genC10Parents(r, tier, emit)      // directed: renewed CA certificates / key-identifier shadowing, non-CA trust anchors
 	genC10NC(r, tier, emit)           // directed: name-constrained CAs x forms of the requested host (trailing dot, case, IP, [IP], none)
 	genC10Fan(newRng(0x66616e), emit) // directed: several valid continuations at every chain length
+	// directed: the verified certificate's own permitted domains are not applied to it (c10leafnc.go)
+	genC10LeafNC(newRng(0x6c6e63), tier, emit)
 }
 
 func (r *rng) pick2(xs []string) string { return xs[r.intn(len(xs))] }
